@@ -13,13 +13,15 @@ RULE = ('1..4 generated Readable modules on a shared poll thread (common io modu
         'intervals 0.1..5 s incl. shorter than a read, slow intervals 0.5..15 s, scripted read/doPoll durations 0..3 s, '
         'failure scripts (rates 0 / 0.3 / 1: SECoP errors, silent errors, ZeroDivisionError, KeyError; communication '
         'failure at start-up), nopoll parameters, run-time changes of pollinterval and fast polling; 200..600 virtual '
-        'seconds each. distinct = (configuration class, failure class, run-time change); non-trivial = configuration '
+        'seconds each; plus wake-up races: a change of pollinterval / fast polling made by another thread exactly before the '
+        'k-th line (k = 1..40, systematic) the idle poll loop executes. distinct = (configuration class, failure class, run-time change); non-trivial = configuration '
         'with failures, a slow read longer than the poll interval, or a run-time change')
 ASSUMPTIONS = ['bounded progress on the virtual clock, with S = sum of the scripted doPoll durations on the thread + longest single read: '
                'main poll start-to-start <= interval + S (+1%); slow read again within 1.5*slowinterval + (n_polled+1)*S (+1%)',
                'the bounds were calibrated on the unchanged tree (largest observed ratios are written to the evidence on every run)',
                'an unbounded "eventually" is not claimed']
-REQUIRED = ['runs', 'main_gaps_checked', 'slow_gaps_checked', 'runs_with_failures', 'nopoll_params_checked', 'interval_changes_checked', 'threads_alive_checked']
+REQUIRED = ['runs', 'main_gaps_checked', 'slow_gaps_checked', 'runs_with_failures', 'nopoll_params_checked', 'interval_changes_checked', 'threads_alive_checked',
+            'wakeup_race_injections']
 
 N = {'quick': 50, 'thorough': 3000}
 
@@ -133,7 +135,28 @@ class World:
             info['ready'] = s.now
             info['node'] = node
             t0 = s.now
-            for t, mi, kind, val in scen['changes']:
+            race = scen.get('race')
+            if race:
+                # the change is made "by another thread" exactly before the k-th line the poll thread executes in its
+                # main loop after the arming time (wake-up races between computing the waiting time and waiting)
+                D.vsleep(race['arm_at'])
+                mod = node.secnode.modules[scen['mods'][0]['name']]
+                code = C.Module._Module__pollThread.__code__
+                st = {'n': 0}
+
+                def hook(code_, line, me):
+                    if code_ is code and st['n'] >= 0:
+                        st['n'] += 1
+                        if st['n'] == race['k']:
+                            st['n'] = -1
+                            info['race_line'] = line
+                            if race['kind'] == 'interval':
+                                mod.pollinterval = race['val']
+                            else:
+                                mod.setFastPoll(True, race['val'])
+                            info.setdefault('changes', []).append((s.now, 0, race['kind'], race['val']))
+                D.LINE_HOOK = hook
+            for t, mi, kind, val in ([] if race else scen['changes']):
                 dt = t0 + t - s.now
                 if dt > 0:
                     D.vsleep(dt)
@@ -152,7 +175,14 @@ class World:
             info['t_end'] = s.now
             node.secnode.shutdown_modules()
         s = D.Sched(('seq',), 0, horizon=scen['T'] + 200, grace=30, max_steps=400_000)
-        s.run(root, wall_timeout=120)
+        if scen.get('race'):
+            D.watch_lines(C.Module._Module__pollThread)
+        try:
+            s.run(root, wall_timeout=120)
+        finally:
+            D.LINE_HOOK = None
+            if scen.get('race'):
+                D.unwatch_all()
         return s, LOG, info
 
     def judge(self, scen, s, LOG, info):
@@ -278,6 +308,23 @@ def run_shard(shard):
         s, LOG, info = w.run(scen)
         vsecs += scen['T']
         w.judge(scen, s, LOG, info)
+    # wake-up races: a run-time change arriving before every line of the idle poll loop (systematic over the line index)
+    kinds = ['interval', 'fast-on']
+    for k in range(1, 41):
+        if (k + shard['idx']) % 4:
+            continue            # the 16 shards share the (k, kind, interval) grid
+        for kind in kinds:
+            iv = [5, 10][(k + shard['idx']) % 2]
+            scen = {'mods': [{'name': 'm0', 'pollinterval': iv, 'slowinterval': 15, 'dopoll': 0, 'reads': {}, 'value_read': 0, 'nopoll': [],
+                              'failrate': 0, 'failkind': 'secop', 'comfail_startup': False}],
+                    'shared': False, 'changes': [[1, 0, kind, 0.2]], 'T': 60, 'rngseed': 1,
+                    'race': {'k': k, 'kind': kind, 'val': 0.2, 'arm_at': round(20 + 0.37 * k + 0.11 * shard['idx'], 3)}}
+            s, LOG, info = w.run(scen)
+            r.count('wakeup_race_runs')
+            if 'race_line' in info:
+                r.count('wakeup_race_injections')
+                r.maximum('wakeup_race_max_line_index', k)
+            w.judge(scen, s, LOG, info)
     r.count('virtual_seconds', vsecs)
     return r.result()
 
